@@ -663,12 +663,15 @@ def run_shard(spec, ctx):
     rec = core.Rec()
     # 1. exhaustive sequential histories
     core.enum_shard(core.sliced(seq_exhaustive(ctx.pick(4, 5)), ctx.index, ctx.nshards), check_case, ctx, rec=rec)
-    if not ctx.quick:
+    if not ctx.quick and not rec.violations:
         for n in (6, 7):
             core.enum_shard(core.sliced(seq_pruned(n), ctx.index, ctx.nshards), check_case, ctx, rec=rec)
     # 2. long random histories (state machine)
-    _run_machine(ctx, rec, ctx.pick(12, 150), 200, "machine")
+    if not rec.violations:
+        _run_machine(ctx, rec, ctx.pick(12, 150), 200, "machine")
     # 3. concurrent schedules
+    if rec.violations:
+        return rec
     if ctx.quick:
         core.hyp_shard(conc_cases(3, "line"), check_case, ctx, 4000, rec=rec, tag="conc")
     else:
